@@ -114,6 +114,10 @@ if _LOG:
         def flush(self):
             pass
 
+        def fileno(self):
+            # no descriptor-level shortcuts (os.sendfile / copy_file_range in shutil's fast copy): content must pass through write()
+            raise io.UnsupportedOperation('fileno')
+
         def close(self):
             if self._closed:
                 return
